@@ -405,6 +405,24 @@ def handle (f : List String) : String :=
       else if rel = "last" then s!"-~~{showGet (vmGetItem .lenient v (.num (.i64 (-1))))}"
       else "-~~-"
     | none => "bad-case"
+  | ["eo", "V", tmpl, n, "s", a, b, c] =>
+    match parseVal (tmpl.replace "#" n), intVal a, intVal b, intVal c with
+    | some v, some a, some b, some c =>
+      match vmSlice .lenient v a b c with
+      | .panic => "panic"
+      | .ok (.error e) => showErr e
+      | .ok (.ok (.iter _ ys)) => "iter:" ++ joinNats ys
+      | .ok (.ok r) => showVal r
+    | _, _, _, _ => "bad-case"
+  | ["eo", "V", tmpl, n, "m"] =>
+    match parseVal (tmpl.replace "#" n) with
+    | some (.seq xs) => "seq:" ++ joinNats xs
+    | some (.iter _ xs) => "seq:" ++ joinNats xs
+    | _ => "bad-case"
+  | ["eo", "V", tmpl, n, "i", k] =>
+    match parseVal (tmpl.replace "#" n), parseVal k with
+    | some v, some key => showGet (vmGetItem .lenient v key)
+    | _, _ => "bad-case"
   | ["eo", rp, how, n, "s", a, b, c] =>
     match n.toNat?, intVal a, intVal b, intVal c with
     | some n, some a, some b, some c =>
